@@ -148,6 +148,16 @@ def _make_decoder(dec, enc):
     if dec == "rm_majority":
         return D.ReedMullerDecoder(enc, input_type="hard")
     if dec == "rm_inverse":
+        if int(enc.code_dimension) > 20:
+            # nearest-codeword search over all 2^k messages: run under a tight address-space cap so that it
+            # fails fast (MemoryError, recorded) instead of eating the machine
+            from vk import core
+
+            def capped(r, **kw):
+                with core.mem_cap(3):
+                    return enc.inverse_encode(r)[0]
+
+            return capped
         return lambda r, **kw: enc.inverse_encode(r)[0]
     if dec == "hamming_inverse":
         return lambda r, **kw: enc.inverse_encode(r)[0]
